@@ -6,3 +6,6 @@ package verifhook
 
 // Point marks a named crash point. It does nothing in normal builds.
 func Point(string) {}
+
+// Fail marks a named failure-injection point. It never fails in normal builds.
+func Fail(string) error { return nil }
